@@ -335,6 +335,38 @@ struct _spawn_future_op_base {
 
         return;
 
+      case _future_state::abandoned:
+        // the future was connected (which registers the stop callback), received
+        // a stop request (so abandon() ran) and is now being destroyed without
+        // ever having been started; negotiate deletion with the spawned
+        // operation exactly like a started future would
+        if (state_.compare_exchange_strong(
+                state,
+                _future_state::complete,
+                // on success, publish our writes to the still-running operation
+                std::memory_order_release,
+                // on failure, consume the now-finished operation's writes
+                std::memory_order_acquire)) {
+          // we gave clean-up responsibility to the spawned operation
+          return;
+        }
+
+        // the operation beat us to setting the state to complete so we own
+        // clean-up
+        UNIFEX_ASSERT(state == _future_state::complete);
+
+        deleter_(this, state);
+
+        return;
+
+      case _future_state::complete:
+        // as above, but the operation had already completed and handed the
+        // operation state to us when we looked; the acquire load consumes the
+        // operation's writes
+        deleter_(this, state_.load(std::memory_order_acquire));
+
+        return;
+
       default:  // should never happen
         std::terminate();
     }
